@@ -250,7 +250,14 @@ class DiameterAssociation(object):
     def put_message_into_send_queue(self, msg: Type[DiameterMessage]) -> None:
         self.lock.acquire()
 
-        self.__is_connected()
+        try:
+            self.__is_connected()
+        except BaseException:
+            #: The connection is gone: the error goes to the caller, the 
+            #: lock does not stay with it.
+            self.lock.release()
+            raise
+
         self._send_messages.put(msg)
 
         hop_by_hop = msg.header.hop_by_hop
